@@ -21,10 +21,14 @@
 #include <asmjit/support/arenahash.h>
 #include <asmjit/support/arenapool.h>
 
+#include <asmjit/x86/x86rapass_p.h>
+
 #include "c15_fault.h"
 
 // file-static prime table of ArenaHash (the archive member arenahash.o is then not pulled in)
 #include <asmjit/support/arenahash.cpp>
+// file-static JitAllocator_new_block / JitAllocatorImpl_deleteBlock (driven directly by the "S vm" scripts)
+#include <asmjit/core/jitallocator.cpp>
 
 using namespace asmjit;
 
@@ -294,6 +298,68 @@ struct WBuilder : Workload {
     CK(b.comment("tail"));
     CK(b.finalize());
     finalize_image(code, r, policy);
+  }
+  void recover(int rec) override { recover_code(code, rec); }
+};
+
+// ---- x86 Builder, continue after a failed emit with a DIFFERENT instruction: one-shot state (options, {k}{z}, lock, comment)
+//      of an instruction that could not be recorded must not leak into the next one. Independent monitor: the final code must be
+//      the concatenation of the stand-alone Assembler encodings of exactly the instructions whose emit reported success.
+template<typename E>
+static Error oneshot_inst(E& e, int i) {
+  using namespace x86;
+  switch (i % 10) {
+    case 0: return e.k(k1).z().vaddps(zmm3, zmm4, zmm5);
+    case 1: return e.vmulps(zmm3, zmm4, zmm5);
+    case 2: return e.lock().add(dword_ptr(rax), ecx);
+    case 3: return e.mov(eax, ebx);
+    case 4: return e.k(k2).vpaddd(zmm1, zmm2, zmm6);
+    case 5: return e.vpxord(zmm1, zmm2, zmm6);
+    case 6: e.set_inline_comment("one-shot comment"); return e.lock().xadd(qword_ptr(rdx, 8), rsi);
+    case 7: return e.add(qword_ptr(rdx, 8), rsi);
+    case 8: return e.rep().movs(byte_ptr(rdi), byte_ptr(rsi));
+    default: return e.vaddpd(ymm1, ymm2, ymm3);
+  }
+}
+
+struct WBuilderOneShot : Workload {
+  CodeHolder code;
+  x86::Builder b;
+  int n;
+  std::vector<std::vector<uint8_t>> enc;
+  explicit WBuilderOneShot(int n_) : n(n_) {
+    for (int i = 0; i < 10; i++) {
+      CodeHolder c;
+      x86::Assembler a;
+      std::vector<uint8_t> bytes;
+      if (c.init(Environment(Arch::kX64)) == Error::kOk && c.attach(&a) == Error::kOk && oneshot_inst(a, i) == Error::kOk)
+        bytes.assign(c.text_section()->data(), c.text_section()->data() + c.text_section()->buffer_size());
+      enc.push_back(bytes);
+    }
+  }
+  void run(Res& r, int policy) override {
+    if (!code.is_initialized()) CKF(code.init(Environment(Arch::kX64)));
+    if (!b.is_initialized()) CKF(code.attach(&b));
+    std::vector<uint8_t> want;
+    for (int i = 0; i < n; i++) {
+      Error e = oneshot_inst(b, i);
+      if (e != Error::kOk) r.fail(e, "oneshot_inst");
+      else want.insert(want.end(), enc[i % 10].begin(), enc[i % 10].end());
+    }
+    r.fired_before_final = F.fired;
+    Error e = b.finalize();
+    if (e != Error::kOk) { r.fail(e, "b.finalize()"); r.late = e; r.late_stage = "b.finalize()"; return; }
+    std::vector<uint8_t> got(code.text_section()->data(), code.text_section()->data() + code.text_section()->buffer_size());
+    if (got != want) {
+      size_t at = 0;
+      while (at < got.size() && at < want.size() && got[at] == want[at]) at++;
+      char msg[160];
+      snprintf(msg, sizeof(msg), "serialized code differs at byte %zu (got %02x, expected %02x) from the encodings of exactly the instructions whose emit succeeded",
+               at, at < got.size() ? got[at] : 0, at < want.size() ? want[at] : 0);
+      r.mon = msg;
+      return;
+    }
+    if (r.err == Error::kOk) { r.bytes = got; r.have_bytes = true; }
   }
   void recover(int rec) override { recover_code(code, rec); }
 };
@@ -819,6 +885,7 @@ static Workload* make_workload(const std::string& wid) {
   if (wid == "builder") return new WBuilder(12);
   if (wid == "builder_big") return new WBuilder(60);
   if (wid == "builder_reinit") return new WBuilderReinit();
+  if (wid == "builder_oneshot") return new WBuilderOneShot(40);
   if (wid == "compiler") return new WCompiler(12);
   if (wid == "compiler_big") return new WCompiler(40);
   if (wid == "compiler_args") return new WCompilerArgs();
